@@ -12,8 +12,9 @@ from .base import Result, V
 from . import simcommon as SC
 from .c07 import dev
 
-MODULES = ['TickitModel.Props.C13', 'TickitModel.Props.C15', 'TickitModel.Props.C17Codec']
-THEOREMS = ['contract_exactly_once', 'deliver_enabled', 'late_subscribe_is_delay', 'producer_before_subscribe', 'subscribe_before_producer_crashes', 'bus_exactly_once_in_order', 'syncBus_refines_contract']
+MODULES = ['TickitModel.Props.C13', 'TickitModel.Props.C15', 'TickitModel.Props.C17Codec', 'TickitModel.Props.C08Msg', 'TickitModel.Props.C08MsgRun']
+THEOREMS = ['contract_exactly_once', 'deliver_enabled', 'late_subscribe_is_delay', 'producer_before_subscribe', 'subscribe_before_producer_crashes', 'bus_exactly_once_in_order', 'syncBus_refines_contract',
+            'msg_tick_refines', 'msg_tick_can_complete', 'msg_not_complete_while_unstarted', 'msg_input_exactly_once', 'msg_root_gets_input', 'msg_bus_contract', 'msg_tick_deterministic', 'msg_run_refines_flatRun', 'msg_run_schedule_independent', 'msg_run_can_complete_tick', 'msg_run_next_tick_enabled']
 ANCHORS = ["src/tickit/core/components/component.py", "src/tickit/core/state_interfaces/internal.py",
            "src/tickit/core/state_interfaces/kafka.py", "src/tickit/core/simulation.py",
            "src/tickit/core/components/system_component.py", "src/tickit/core/management/schedulers/base.py"]
@@ -21,8 +22,8 @@ TECHNIQUE = "Lean 4 theorems (contract bus: replay from the first message exactl
 LEVEL_TEXT = ("Theorems over the state-interface contract model: in every execution a consumer receives exactly the log prefix up to its cursor from the "
               "very first message, whenever it subscribed; every execution is equivalent (same logs, same deliveries in the same order) to one in "
               "which all subscriptions come first - so start delays are delivery delays, and schedule independence (C08) transfers; with the producer "
-              "created before the subscription no interleaving handles an input without a producer (and the opposite order provably crashes); the synchronous internal bus is proved to be a refinement of the contract bus. PARTIAL: "
-              "the link from 'start delays are delays' to 'same observations' rests on C08, proved for flat simulations. Tie to the code: every "
+              "created before the subscription no interleaving handles an input without a producer (and the opposite order provably crashes); the synchronous internal bus is proved to be a refinement of the contract bus. THE LINK TO OBSERVATIONS (Core/MsgFlat, MsgFlatRun; Props/C08Msg, C08MsgRun - a message-level model of one scheduler level over the contract bus in which the scheduler and every component START AT ANY MOMENT, in any order, and messages produced to a topic before its consumer started stay in the log and are consumed after it starts): from every reachable state the tick in progress can be completed (msg_tick_can_complete, msg_run_can_complete_tick); a tick cannot complete while a component that was sent an Input has not started, and once it starts it handles exactly that Input, exactly once (msg_not_complete_while_unstarted, msg_input_exactly_once); every root of the initial tick is sent an Input (msg_root_gets_input); every history refines the atomic tick system and over many ticks a FlatRun, so two runs with different start patterns and interleavings have the same tick times and per-device observations - the run proceeds as if all had started together (msg_run_refines_flatRun, msg_run_schedule_independent). PARTIAL: "
+              "the message-level model covers one (flat) scheduler level without interrupts; nested levels and early interrupts are validated. Tie to the code: every "
               "assignment of start delays 0..2/3 event-loop steps to the scheduler and each top-level component (device and system components) of "
               "small configurations, under the internal-bus semantics and a delaying bus, plus early interrupts raised before a late scheduler is "
               "up: the initial tick must reach every device once, complete, and all observation sequences must equal the simultaneous start.")
